@@ -15,6 +15,9 @@ class KDSubset(Subset):
         if item == "dataset":
             return getattr(super(), item)
         if item.startswith("getall_"):
+            # only datasets that implement getall_ can be subsampled (hasattr has to be False otherwise)
+            if not hasattr(self.dataset, item):
+                raise AttributeError(f"'{type(self).__name__}' object has no attribute '{item}'")
             # subsample getitem_ with the indices
             return partial(self._call_getall, item)
         return getattr(self.dataset, item)
